@@ -16,7 +16,7 @@
    `idx := Index(t, "//"); t[:idx], t[idx:]` is `split_dslash`; `t[LastIndexByte(t,'/')+1:]` (or t when there
    is no slash) is `last_seg`.  ParseBuildLabelParts and parseBuildLabelSubrepo call each other on ever
    shorter suffixes; the model recurses on explicit fuel (length of the string + 1), `None` = out of fuel,
-   proved unreachable (Proof/C20.v parts_fuel_enough).
+   proved unreachable (Proof/C20_Parse.v parts_fuel_enough, try_parse_never_out_of_fuel).
 
    Not modelled: parseMaybeRelativeBuildLabel (repo-root discovery, filepath.Join), the directory walk behind a
    command-line `//p/...` (FindAllBuildFiles: property C22), subrepo packages in PackageMap, logging.
